@@ -4,9 +4,9 @@
 d=$(realpath $1); shift
 w=/tmp/seedeval-$$
 git -C /repo worktree add -q --detach $w HEAD || exit 3
-trap "git -C /repo worktree remove --force $w >/dev/null 2>&1; rm -rf /tmp/seedeval-build-$$" EXIT
+trap "git -C /repo worktree remove --force $w >/dev/null 2>&1; rm -rf /tmp/seedeval-build-$$ /tmp/seedeval-target-$$" EXIT
 cp $d/demo.rs $w/test_suite/tests/seeded_demo.rs
-export CARGO_TARGET_DIR=/tmp/seedeval-target CARGO_NET_OFFLINE=true
+export CARGO_TARGET_DIR=/tmp/seedeval-target-$$ CARGO_NET_OFFLINE=true
 cd $w
 base=$(cargo test --offline -p scale-info-test-suite --test seeded_demo 2>&1 | grep -E '^test result' | head -1)
 git apply $d/patch.diff || { echo "PATCH DOES NOT APPLY"; exit 3; }
